@@ -146,14 +146,16 @@ theorem getIndex_ok {s : Sys π ν} (hw : WFr s) (x : String) : ∃ r, s.getInde
   cases h1 : dget s.nodes x with
   | some i => exact ⟨_, rfl⟩
   | none =>
-    cases h2 : s.railOwner x with
-    | none => exact ⟨_, rfl⟩
-    | some o =>
-      have ho : o ∈ dkeys s.rails := mem_dkeys.mpr ⟨x, railOwner_some h2⟩
-      obtain ⟨p, hp, hx⟩ := mem_names.mp ((hw.rails_keys o).mp ho)
-      have := hw.nodes_get p hp
-      rw [hx] at this
-      simp [this]
+    by_cases hx0 : x = ""
+    · exact ⟨none, by simp [hx0]⟩
+    · cases h2 : s.railOwner x with
+      | none => exact ⟨none, by simp [hx0]⟩
+      | some o =>
+        have ho : o ∈ dkeys s.rails := mem_dkeys.mpr ⟨x, railOwner_some h2⟩
+        obtain ⟨p, hp, hx⟩ := mem_names.mp ((hw.rails_keys o).mp ho)
+        have := hw.nodes_get p hp
+        rw [hx] at this
+        exact ⟨some p.1, by simp [hx0, this]⟩
 
 theorem getIndex_live {s : Sys π ν} (hw : WFr s) {x : String} {n : Nat} (h : s.getIndex x = .ok (some n)) :
     n ∈ s.ids := by
@@ -165,35 +167,40 @@ theorem getIndex_live {s : Sys π ν} (hw : WFr s) {x : String} {n : Nat} (h : s
     rw [← h, ← hn]; exact mem_ids_of_mem hp
   | none =>
     simp only [h1] at h
-    cases h2 : s.railOwner x with
-    | none => simp [h2] at h
-    | some o =>
-      simp only [h2] at h
-      cases h3 : dget s.nodes o with
-      | none => simp [h3] at h
-      | some i =>
-        simp only [h3, Except.ok.injEq, Option.some.injEq] at h
-        obtain ⟨p, hp, _, hn⟩ := nodes_get_live hw h3
-        rw [← h, ← hn]; exact mem_ids_of_mem hp
+    by_cases hx0 : x = ""
+    · simp [hx0] at h
+    · simp only [hx0, if_false] at h
+      cases h2 : s.railOwner x with
+      | none => simp [h2] at h
+      | some o =>
+        simp only [h2] at h
+        cases h3 : dget s.nodes o with
+        | none => simp [h3] at h
+        | some i =>
+          simp only [h3, Except.ok.injEq, Option.some.injEq] at h
+          obtain ⟨p, hp, _, hn⟩ := nodes_get_live hw h3
+          rw [← h, ← hn]; exact mem_ids_of_mem hp
 
 /-- `_chk_parent` passes exactly when `_get_index` finds something -/
 theorem chkParent_iff {s : Sys π ν} (hw : WFr s) (x : String) :
     s.chkParent x = true ↔ ∃ n, s.getIndex x = .ok (some n) := by
   unfold Sys.chkParent Sys.getIndex
-  simp only [Bool.or_eq_true, decide_eq_true_eq]
+  simp only [Bool.or_eq_true, Bool.and_eq_true, decide_eq_true_eq]
   cases h1 : dget s.nodes x with
   | some i => simp [dget_some_key h1]
   | none =>
     have hk : x ∉ dkeys s.nodes := dget_eq_none_iff.mp h1
-    cases h2 : s.railOwner x with
-    | none => simp [hk, railOwner_none h2]
-    | some o =>
-      have hv : x ∈ dvals s.rails := mem_dvals.mpr ⟨o, railOwner_some h2⟩
-      have ho : o ∈ dkeys s.rails := mem_dkeys.mpr ⟨x, railOwner_some h2⟩
-      obtain ⟨p, hp, hx⟩ := mem_names.mp ((hw.rails_keys o).mp ho)
-      have := hw.nodes_get p hp
-      rw [hx] at this
-      simp [hk, hv, this]
+    by_cases hx0 : x = ""
+    · subst hx0; simp [hk]
+    · cases h2 : s.railOwner x with
+      | none => simp [hk, hx0, railOwner_none h2]
+      | some o =>
+        have hv : x ∈ dvals s.rails := mem_dvals.mpr ⟨o, railOwner_some h2⟩
+        have ho : o ∈ dkeys s.rails := mem_dkeys.mpr ⟨x, railOwner_some h2⟩
+        obtain ⟨p, hp, hx⟩ := mem_names.mp ((hw.rails_keys o).mp ho)
+        have := hw.nodes_get p hp
+        rw [hx] at this
+        simp [hk, hv, hx0, this]
 
 theorem names_eq_nodes_keys {s : Sys π ν} (hw : WFr s) (x : String) : x ∈ dkeys s.nodes ↔ x ∈ s.names := by
   constructor
